@@ -81,6 +81,7 @@ type loopInfo struct {
 	entrySt  *State
 	entryPhi map[*ssa.Phi]Val
 	modSt    *State
+	modNames map[string]bool
 }
 
 func (a *Act) pos(p token.Pos) string { return a.u.E.Pos(p) }
